@@ -338,6 +338,8 @@ TIES = {
     'ValidateMatch': dict(props=['C05', 'C15'], theorems=['validate_match_eq', 'validate_tie'], cxx='sequence_type::validate_match (sequence.hpp)'),
     'SeqDtor': dict(props=['C06'], theorems=['seq_dtor_eq', 'teardown_tie'], cxx='sequence_type::~sequence_type (sequence.hpp)'),
     'RunActions': dict(props=['C01', 'C03', 'C05', 'C07', 'C08', 'C16'], theorems=['run_actions_order'], cxx='call_matcher::run_actions (mock.hpp)'),
+    'SemRunActions': dict(props=['C01', 'C03', 'C05', 'C07'], theorems=['run_actions_sem'], cxx='call_matcher::run_actions (mock.hpp), meaning of its trace'),
+    'SemNotify': dict(props=['C05', 'C06', 'C13'], theorems=['notify_sem'], cxx='lifetime_monitor::notify (lifetime.hpp), meaning of its trace'),
     'CallMatcherDtor': dict(props=['C04'], theorems=['call_matcher_dtor_order'], cxx='call_matcher::~call_matcher (mock.hpp)'),
     'MockDestroyed': dict(props=['C04'], theorems=['mock_destroyed_order'], cxx='call_matcher::mock_destroyed (mock.hpp)'),
     'IsUnfulfilled': dict(props=['C04'], theorems=['is_unfulfilled_tie'], cxx='call_matcher::is_unfulfilled (mock.hpp)'),
